@@ -120,11 +120,10 @@ Originate(n, t) ==
   /\ chan' = SendAll(chan, n, [t |-> "TX", x |-> t])
   /\ UNCHANGED << has, head, waiting, backoff, inv, fetching, relayedB, relayedT, budget, qrounds, done >>
 
-Deliver(s, r) ==
-  /\ chan[s][r] # << >> /\ UNCHANGED << budget, qrounds, done >>
-  /\ LET m == Head(chan[s][r])
-         c1 == [chan EXCEPT ![s][r] = Tail(@)] IN
-     CASE m.t = "GB" ->
+(* the receiving handlers: message m arrives at r on the link from s; c1 = the channels without that message *)
+DeliverMsg(s, r, m, c1) ==
+  /\ UNCHANGED << budget, qrounds, done >>
+  /\ CASE m.t = "GB" ->
             LET res == Scan(r, m.loc, 1)
                 items == IF res.kind = "empty" THEN << >> ELSE Items(r, res.start) IN
             /\ chan' = Send(c1, r, s, << [t |-> "INV", items |-> items] >>)
@@ -164,6 +163,9 @@ Deliver(s, r) ==
                /\ relayedT' = [relayedT EXCEPT ![r][m.x] = @ + 1]
                /\ chan' = SendAll(c1, r, [t |-> "TX", x |-> m.x])
                /\ UNCHANGED << has, head, waiting, backoff, inv, fetching, relayedB >>
+
+Deliver(s, r) == /\ chan[s][r] # << >>
+                 /\ DeliverMsg(s, r, Head(chan[s][r]), [chan EXCEPT ![s][r] = Tail(@)])
 
 NInit == /\ has = Init0
          /\ head = [n \in Nodes |-> FirstBest(Init0[n])]
